@@ -1,6 +1,8 @@
 package props
 
 import (
+	"strings"
+
 	"verifharness/core"
 )
 
@@ -311,6 +313,13 @@ func c13BuildSpecials() {
 		c13Pipe(c13Tern(c13P("bt"), s1, s2), c13Call("upper")), c13Pipe(c13Un("-", n1), c13Call("hDbl")),
 	} {
 		add("pipe-head/expr", e)
+	}
+	// calls joined by an operator written without blanks: add(1,2)+add(3,4)
+	for _, e := range []c13E{
+		c13Bin("+", c13Call("hDbl", n1), c13Call("hSub", n1, n2)), c13Bin("*", c13Call("hSub", n1, c13Int(1)), c13Int(2)), c13Bin(">", c13Call("hDbl", n1), c13Call("hSub", n2, c13Int(1))),
+		c13Bin("+", c13Call("hCat", s1, c13Str("k1")), c13Call("upper", s2)), c13Bin("-", c13Call("hSub", n1, n2), c13Call("hSub", n2, n1)),
+	} {
+		add("call-in-op/unspaced", e)
 	}
 	// a quoted literal with characters outside ASCII, standing before a pipe (as the head, inside an
 	// operator head, as the argument of a filter that another filter follows)
@@ -672,7 +681,11 @@ func c13GenCase(ctx core.Ctx, i int) c13Case {
 	case "special":
 		sp := c13Specials[i/c13NEnv]
 		e := sp.E
-		return c13Case{Part: "special", Group: sp.Group, Env: i % c13NEnv, E: &e}
+		style := ""
+		if strings.HasSuffix(sp.Group, "/unspaced") {
+			style = "unspaced"
+		}
+		return c13Case{Part: "special", Group: sp.Group, Style: style, Env: i % c13NEnv, E: &e}
 	case "chain12", "chain3":
 		ns := len(c13Steps)
 		var start string
